@@ -1321,6 +1321,8 @@ def combinator_results(repo, lang):
     au = m.funcs.get('apply_unary_rules')
     if au is None:
         raise Fail(f'grammar/{lang}.py: no apply_unary_rules')
+    import patconst
+    au = patconst.unlazy(au)      # `V = None` ... `if V is None: V = EXPR` at the top of the loop body reads as `V = EXPR` (see patconst.unlazy)
     unary = _results_of(au, m, f'grammar/{lang}.py:apply_unary_rules')
     if not unary:
         raise Fail(f'grammar/{lang}.py: apply_unary_rules builds no CombinatorResult')
